@@ -15,4 +15,10 @@ def run(tier, seed):
         res.assumptions.append("lexer line/column contracts not built")
     from props import tables
     res.add(tables.error_channel_obligations("C11"))
+    from props import ppline
+    pl = ppline.obligations(tier)
+    for o in pl.obs:
+        o.name = "C11/" + o.name
+    res.add(pl)
+
     return res
